@@ -3,8 +3,12 @@
 
    Vocabulary (Spec.v): [tagged_concat ps] = every input spike of every probe, probe after probe in file order, each
    tagged with (probe index, index within the probe) and carrying its time, amplitude, template id, cluster id;
-   [wf ps] = at least one probe, every probe has >= 1 spike, its four per-spike arrays have equal length, ids >= 0;
-   [coff_spec ps k] / [toff_spec ps k] = sum over the probes before k of (largest cluster / template id + 1);
+   [p_ntmpl p] = the number of templates of probe p = number of rows of its templates.npy (an input of the merge);
+   [wf ps] = at least one probe, every probe has >= 1 spike, its four per-spike arrays have equal length, ids >= 0,
+   and every spike template id is < p_ntmpl (templates without spikes, trailing or not, are allowed);
+   [coff_spec ps k] = sum over the probes before k of (largest cluster id + 1);
+   [toff_spec ps k] = sum over the probes before k of p_ntmpl -- the row of the merged templates.npy where
+   write_templates (C12) puts template 0 of probe k (linked in PV.C12.Props.C12_spike_template_rows);
    [lt3] = strictly increasing in (time, probe index, index within the probe), lexicographically. *)
 From Coq Require Import ZArith List Bool Sorted Permutation Lia.
 From PV Require Import Base.NpSort Base.NpSearch C11.Model C11.Spec C11.Proofs C11.Proofs2 C11.Proofs3.
@@ -61,7 +65,8 @@ Proof. exact (@thm_probe_subsequence). Qed.
 Print Assumptions C11_probe_subsequence.
 
 (* each merged spike carries its own time and amplitude; cluster id = original + cluster offset of its probe,
-   template id = original + template offset of its probe; the registered offsets are the declarative ones *)
+   template id = original + template offset of its probe (= number of templates of the earlier probes); the registered
+   offsets are the declarative ones *)
 Theorem C11_payload : forall (A V F : Type) (ps : list (probe A V F)), wf ps ->
   exists m M, merge ps = Some m /\ Permutation M (tagged_concat ps) /\
     m_times m = map (@t_time A) M /\ m_amps m = map (@t_amp A) M /\
@@ -72,13 +77,15 @@ Proof. exact (@thm_payload). Qed.
 Print Assumptions C11_payload.
 
 (* the id intervals [offset_j, offset_j + max_j] and [offset_k, ...] of two probes j < k are disjoint (the first ends
-   strictly below the start of the second) and contain the shifted ids of their probe; clusters and templates *)
+   strictly below the start of the second) and contain the shifted ids of their probe; clusters and templates; for
+   templates the whole row range [toff_j, toff_j + p_ntmpl_j) of probe j (spiking or not) ends at or below toff_k *)
 Theorem C11_disjoint : forall (A V F : Type) (ps : list (probe A V F)), Forall wf_probe ps ->
   forall j k pj pk, (j < k)%nat -> nth_error ps j = Some pj -> nth_error ps k = Some pk ->
   (coff_spec ps j + zmaxl (p_clu pj) < coff_spec ps k /\
    (forall c, In c (p_clu pj) -> coff_spec ps j <= c + coff_spec ps j <= coff_spec ps j + zmaxl (p_clu pj)) /\
    (forall c, In c (p_clu pk) -> coff_spec ps k <= c + coff_spec ps k)) /\
   (toff_spec ps j + zmaxl (p_tmpl pj) < toff_spec ps k /\
+   toff_spec ps j + p_ntmpl pj <= toff_spec ps k /\
    (forall c, In c (p_tmpl pj) -> toff_spec ps j <= c + toff_spec ps j <= toff_spec ps j + zmaxl (p_tmpl pj)) /\
    (forall c, In c (p_tmpl pk) -> toff_spec ps k <= c + toff_spec ps k)).
 Proof. exact (@thm_disjoint). Qed.
@@ -106,9 +113,11 @@ Theorem C11_cluster_probes : forall (A V F : Type) (ps : list (probe A V F)), wf
 Proof. exact (@thm_cluster_probes). Qed.
 Print Assumptions C11_cluster_probes.
 
-(* error exits of the model (= where the real code raises): no probe directory; a probe without any spike *)
+(* error exits of the model (= where the real code raises): no probe directory; a probe without any spike (np.max of
+   its empty spike_clusters.  The repaired code no longer evaluates np.max(spike_templates): an empty spike_templates is
+   an error exit together with the equal lengths of the probe's per-spike arrays, wf_len) *)
 Theorem C11_error_exits : forall (A V F : Type), merge (@nil (probe A V F)) = None /\
-  forall (ps : list (probe A V F)) p, In p ps -> p_clu p = [] \/ p_tmpl p = [] -> merge ps = None.
+  forall (ps : list (probe A V F)) p, In p ps -> p_clu p = [] \/ (wf_len p /\ p_tmpl p = []) -> merge ps = None.
 Proof. exact (@thm_error_exits). Qed.
 Print Assumptions C11_error_exits.
 
@@ -131,6 +140,7 @@ Print Assumptions C11_checker_sorted_sound.
 Theorem C11_checker_payload_sound : forall (A V F : Type) (aeqb : A -> A -> bool),
   (forall a b, aeqb a b = true -> a = b) -> forall (ps : list (probe A V F)) (o : obs A V F),
   c_payload aeqb ps o = true ->
+  o_coffs o = map (coff_spec ps) (seq 0 (length ps)) /\ o_toffs o = map (toff_spec ps) (seq 0 (length ps)) /\
   length (o_times o) = length (concat (map (@rows_of A V F) ps)) /\
   forall k p, nth_error ps k = Some p -> Permutation (sub_rows ps o k) (rows_of p).
 Proof. exact (@c_payload_sound). Qed.
@@ -142,19 +152,20 @@ Theorem C11_checker_disjoint_sound : forall (A V F : Type) (ps : list (probe A V
   nth_error (o_coffs o) j = Some cj -> nth_error (o_coffs o) k = Some ck ->
   nth_error (o_toffs o) j = Some tj -> nth_error (o_toffs o) k = Some tk ->
   (cj + n_ids (p_clu pj) <= ck \/ ck + n_ids (p_clu pk) <= cj) /\
-  (tj + n_ids (p_tmpl pj) <= tk \/ tk + n_ids (p_tmpl pk) <= tj).
+  (tj + p_ntmpl pj <= tk \/ tk + p_ntmpl pk <= tj).
 Proof. exact (@c_disjoint_sound). Qed.
 Print Assumptions C11_checker_disjoint_sound.
 
 (* ---- non-vacuity: a concrete merge of three probes (ties inside and across probes, a one-spike probe, gaps,
-        curated clusters, TSV in some) ---- *)
+        curated clusters, TSV in some; probe 0 has 4 templates of which the last has no spike, probe 2 has 3 of
+        which only the first spikes) ---- *)
 Definition ex_ps : list (probe Z Z Z) :=
-  [ mkprobe [1; 3; 3; 7] [10; 20; 30; 40] [0; 2; 2; 1] [0; 4; 2; 1] [Some (mkmeta 5 [(0, 100); (4, 101)]); None; None];
-    mkprobe [0; 3; 9] [50; 60; 70] [1; 0; 1] [1; 0; 1] [Some (mkmeta 5 [(1, 102)]); None; Some (mkmeta 6 [(0, 7)])];
-    mkprobe [3] [80] [0] [3] [None; None; None] ].
+  [ mkprobe [1; 3; 3; 7] [10; 20; 30; 40] [0; 2; 2; 1] [0; 4; 2; 1] 4 [Some (mkmeta 5 [(0, 100); (4, 101)]); None; None];
+    mkprobe [0; 3; 9] [50; 60; 70] [1; 0; 1] [1; 0; 1] 2 [Some (mkmeta 5 [(1, 102)]); None; Some (mkmeta 6 [(0, 7)])];
+    mkprobe [3] [80] [0] [3] 3 [None; None; None] ].
 Example C11_ex_merge : merge ex_ps = Some (mkmerged
-  [0; 1; 3; 3; 3; 3; 7; 9] [50; 10; 20; 30; 60; 80; 40; 70] [4; 0; 2; 2; 3; 5; 1; 4] [6; 0; 4; 2; 5; 10; 1; 6]
-  [0; 0; 0; 0; 0; 1; 1; 2; 2; 2; 2] [0; 5; 7] [0; 3; 5]
+  [0; 1; 3; 3; 3; 3; 7; 9] [50; 10; 20; 30; 60; 80; 40; 70] [5; 0; 2; 2; 4; 6; 1; 5] [6; 0; 4; 2; 5; 10; 1; 6]
+  [0; 0; 0; 0; 0; 1; 1; 2; 2; 2; 2] [0; 5; 7] [0; 4; 6]
   [Some (mkmeta 5 [(0, 100); (4, 101); (6, 102)]); None; Some (mkmeta 6 [(5, 7)])]).
 Proof. vm_compute. reflexivity. Qed.
 Example C11_ex_wf : wf ex_ps.
@@ -162,7 +173,7 @@ Proof.
   split; [discriminate|]. repeat constructor; cbn; try discriminate; intros c H;
     repeat (destruct H as [<-|H]; [lia|]); contradiction.
 Qed.
-Example C11_ex_offsets : map (coff_spec ex_ps) [0; 1; 2; 3]%nat = [0; 5; 7; 11] /\ map (toff_spec ex_ps) [0; 1; 2]%nat = [0; 3; 5].
+Example C11_ex_offsets : map (coff_spec ex_ps) [0; 1; 2; 3]%nat = [0; 5; 7; 11] /\ map (toff_spec ex_ps) [0; 1; 2; 3]%nat = [0; 4; 6; 9].
 Proof. vm_compute. split; reflexivity. Qed.
 
 (* ---- renumbered per-cluster metadata ----
@@ -179,18 +190,18 @@ Print Assumptions C11_metadata.
 (* the range hypothesis is needed: a TSV row for an id above the probe's largest spike cluster id lands in the next
    probe's interval and is overwritten / mis-attributed (probe 0: one cluster 0, its file also lists id 1) *)
 Definition ex_bad : list (probe Z Z Z) :=
-  [ mkprobe [1] [10] [0] [0] [Some (mkmeta 5 [(0, 100); (1, 101)]); None; None];
-    mkprobe [2] [20] [0] [0] [Some (mkmeta 5 [(0, 200)]); None; None] ].
+  [ mkprobe [1] [10] [0] [0] 1 [Some (mkmeta 5 [(0, 100); (1, 101)]); None; None];
+    mkprobe [2] [20] [0] [0] 1 [Some (mkmeta 5 [(0, 200)]); None; None] ].
 Theorem C11_metadata_needs_range : wf ex_bad /\ ~ meta_in_range 0 ex_bad /\
   forall m, merge ex_bad = Some m -> ~ Meta_spec 0 ex_bad (nth 0 (m_meta m) None).
 Proof.
   split; [|split].
   - split; [discriminate|]. repeat constructor; cbn; try discriminate; intros c H;
       repeat (destruct H as [<-|H]; [lia|]); contradiction.
-  - intros H. specialize (H (nth 0 ex_bad (mkprobe [] [] [] [] [])) (mkmeta 5 [(0, 100); (1, 101)]) (1, 101)).
+  - intros H. specialize (H (nth 0 ex_bad (mkprobe [] [] [] [] 0 [])) (mkmeta 5 [(0, 100); (1, 101)]) (1, 101)).
     cbn in H. assert (0 <= 1 <= 0) by (apply H; auto). lia.
   - intros m Hm. vm_compute in Hm. injection Hm as <-. intros [Hf _].
-    specialize (Hf 0%nat (nth 0 ex_bad (mkprobe [] [] [] [] [])) (mkmeta 5 [(0, 100); (1, 101)]) 1 101 eq_refl eq_refl eq_refl).
+    specialize (Hf 0%nat (nth 0 ex_bad (mkprobe [] [] [] [] 0 [])) (mkmeta 5 [(0, 100); (1, 101)]) 1 101 eq_refl eq_refl eq_refl).
     vm_compute in Hf. discriminate.
 Qed.
 Print Assumptions C11_metadata_needs_range.
@@ -202,7 +213,33 @@ Proof.
     injection Hm as <-; cbn in Hkv; repeat (destruct Hkv as [<-|Hkv]; [cbn; lia|]); contradiction.
 Qed.
 
-Example C11_ex_subsequence : filter (of_probe 1) (sorted_tagged (tagged_concat ex_ps)) = tag_probe 1 (nth 1 ex_ps (mkprobe [] [] [] [] [])).
+Example C11_ex_subsequence : filter (of_probe 1) (sorted_tagged (tagged_concat ex_ps)) = tag_probe 1 (nth 1 ex_ps (mkprobe [] [] [] [] 0 [])).
 Proof. vm_compute. reflexivity. Qed.
-Example C11_ex_error : merge (ex_ps ++ [mkprobe [] [] [] [] [None; None; None]]) = None.
+Example C11_ex_error : merge (ex_ps ++ [mkprobe [] [] [] [] 0 [None; None; None]]) = None.
 Proof. vm_compute. reflexivity. Qed.
+
+(* ---- the guard on the template count is needed, and what the code does without it ----
+   wf asks that every spike names one of the probe's templates (id < p_ntmpl).  Nothing in write_spike_clusters checks
+   it: when probe 0's templates.npy has 1 row but one of its spikes names template 1, the merge goes through, the
+   template offsets are still the cumulative counts [0; 1], and the shifted id 1 of that spike is also the merged id of
+   template 0 of probe 1 -- two spikes of different probes share a merged template id. *)
+Definition ex_short : list (probe Z Z Z) :=
+  [ mkprobe [1; 2] [10; 20] [0; 1] [0; 1] 1 [None; None; None];
+    mkprobe [3] [30] [0] [0] 1 [None; None; None] ].
+Theorem C11_template_count_needed :
+  (forall p, In p ex_short -> wf_len p /\ p_times p <> [] /\ (forall c, In c (p_clu p) -> 0 <= c) /\
+                              (forall c, In c (p_tmpl p) -> 0 <= c)) /\
+  ~ wf ex_short /\
+  exists m, merge ex_short = Some m /\ m_toffs m = [0; 1] /\ m_tmpl m = [0; 1; 1] /\
+    exists s1 s2, In s1 (tagged_concat ex_short) /\ In s2 (tagged_concat ex_short) /\ t_probe s1 <> t_probe s2 /\
+      t_tmpl s1 + toff_spec ex_short (t_probe s1) = t_tmpl s2 + toff_spec ex_short (t_probe s2).
+Proof.
+  split; [|split].
+  - intros p [<-|[<-|[]]]; (split; [unfold wf_len; cbn; auto|]); (split; [discriminate|]);
+      split; intros c H; cbn in H; repeat (destruct H as [<-|H]; [lia|]); contradiction.
+  - intros [_ H]. inversion H as [|? ? (_ & _ & _ & _ & _ & _ & N) _]; subst. specialize (N 1). cbn in N.
+    assert (1 < 1) by (apply N; auto). lia.
+  - eexists. split; [vm_compute; reflexivity|]. split; [reflexivity|]. split; [reflexivity|].
+    exists (mktag 0 1 2 20 1 1), (mktag 1 0 3 30 0 0). cbn. repeat split; auto; discriminate.
+Qed.
+Print Assumptions C11_template_count_needed.
